@@ -4,6 +4,7 @@ package gateway
 
 import (
 	"context"
+	"errors"
 	"time"
 
 	"github.com/hydraide/hydraide/app/core/hydra"
@@ -398,4 +399,67 @@ func VerifC06Model(h *verifrt.H) {
 		h.Assert(ex == m.exists, "swamp-existence-after-request")
 	}
 	h.Cover("end")
+}
+
+// ---------- C12 at gateway level: PatchTreasures batches with a Cap ----------
+
+// c12unmarshal replaces msgpack.Unmarshal (reflection-based) for the bodies used here:
+// {"s": "<one char>"} decodes to map[string]interface{}{"s": string}.
+func c12unmarshal(data []byte, v interface{}) error {
+	m := map[string]interface{}{}
+	if len(data) == 5 && data[0] == 0x81 && data[1] == 0xa1 && data[3] == 0xa1 {
+		m[string(data[2:3])] = string(data[4:5])
+	} else if !(len(data) == 1 && data[0] == 0x80) {
+		return errors.New("c12unmarshal: body shape not modelled")
+	}
+	if p, ok := v.(*map[string]interface{}); ok {
+		*p = m
+		return nil
+	}
+	return errors.New("c12unmarshal: target not modelled")
+}
+
+// VerifC12Gateway: two concurrent PatchTreasures batches, each carrying the same Cap (at most 1
+// record with s == "d") and each moving ONE of two non-matching records into the filter, through
+// the real gateway handlers on a real in-memory swamp. At quiescence at most 1 record matches,
+// and exactly the batches that were granted budget report PATCHED.
+func VerifC12Gateway(h *verifrt.H) {
+	g, _ := gwNew(h)
+	h.Stub("github.com/vmihailenco/msgpack/v5.Unmarshal", c12unmarshal)
+	ctx := context.Background()
+	body := func(c byte) []byte { return []byte{0xC7, 0x00, 0x81, 0xa1, 's', 0xa1, c} }
+	_, err := g.Set(ctx, &hydrapb.SetRequest{Swamps: []*hydrapb.SwampRequest{{SwampName: gwSwamp, CreateIfNotExist: true, Overwrite: true,
+		KeyValues: []*hydrapb.KeyValuePair{{Key: "a", BytesVal: body('p')}, {Key: "b", BytesVal: body('p')}}}}})
+	h.Assert(err == nil, "setup")
+	path := "s"
+	cap := &hydrapb.Cap{MaxMatching: 1, Filter: &hydrapb.FilterGroup{Filters: []*hydrapb.TreasureFilter{{
+		Operator: hydrapb.Relational_EQUAL, BytesFieldPath: &path, CompareValue: &hydrapb.TreasureFilter_StringVal{StringVal: "d"}}}}}
+	patched := 0
+	for _, k := range []string{"a", "b"} {
+		k := k
+		h.Go("batch", func() {
+			resp, err := g.PatchTreasures(ctx, &hydrapb.PatchTreasuresRequest{SwampName: gwSwamp, Cap: cap,
+				Patches: []*hydrapb.TreasurePatch{{Key: k, Ops: []*hydrapb.PatchOp{{Op: hydrapb.PatchOp_SET, Path: "s", Value: []byte{0xa1, 'd'}}}}}})
+			h.Assert(err == nil && resp != nil && len(resp.Results) == 1, "cap-batch-returns")
+			if err == nil && resp != nil && len(resp.Results) == 1 && resp.Results[0].Status == hydrapb.PatchResult_PATCHED {
+				patched++
+			}
+		})
+	}
+	h.AtQuiescence(func() {
+		resp, err := g.Get(ctx, &hydrapb.GetRequest{Swamps: []*hydrapb.GetSwamp{{SwampName: gwSwamp, Keys: []string{"a", "b"}}}})
+		h.Assert(err == nil && resp != nil, "final-read")
+		if err != nil || resp == nil {
+			return
+		}
+		matching := 0
+		for _, t := range resp.Swamps[0].Treasures {
+			if len(t.BytesVal) == 7 && t.BytesVal[6] == 'd' {
+				matching++
+			}
+		}
+		h.Assert(matching <= 1, "matches-never-exceed-cap")
+		h.Assert(matching == patched, "patched-results-equal-moved-records")
+		h.Cover("end")
+	})
 }
